@@ -619,6 +619,15 @@ def _obligations_for(prop, tier):
         obs = wf_cubes(3, ["shared2", "private"], 3, kinds=(0,), name="fs", timeout=600 if thorough else 150, H=12)
         obs += with_history(wf_cubes(3, ["shared2"], 2, kinds=(0,), name="fs", timeout=600 if thorough else 150, H=12, edge_sets=[[(0, 1), (0, 2)], [(0, 2)], [(0, 1)]],
                                      extra_task=lambda i: {"due": (0, 2, 1)[i]}), "after-backward-due", 1)
+        # PERT values are also kept current at project-wide absence steps (two symbolic steps), and after a plain backward run
+        ab = wf_cubes(3, ["shared2"], 2, kinds=(0,), name="fs-abs", timeout=600 if thorough else 150, H=12, edge_sets=[[(0, 1), (1, 2)], [(0, 1), (0, 2)], [(0, 2), (1, 2)]],
+                      run_extra={"abs": ["$pa0", "$pa1"]})
+        for ob in ab:
+            ob["params"] = ob["params"] + [["pa0", 0, 3], ["pa1", 1, 5]]
+            ob["pre"] = "pa0 < pa1"
+        obs += ab
+        obs += with_history(wf_cubes(3, ["shared2"], 2, kinds=(0,), name="fs", timeout=600 if thorough else 150, H=12, edge_sets=[[(0, 1), (0, 2)], [(0, 2), (1, 2)], [(0, 1), (1, 2)]]),
+                            "after-backward", 1)
         rev = wf_cubes(3, ["shared2"], 2, kinds=(0,), name="fs-listed-reversed", timeout=600 if thorough else 150, H=12)
         for ob in rev:
             ob["cube"] = {"spec": dict(ob["cube"]["spec"], tl_order=[2, 1, 0])}
